@@ -529,6 +529,29 @@ func slMain(args []string) int {
 				}
 				sc.Procs[fmt.Sprintf("p%d", p)] = ops
 			}
+			if !*wide && *iters == 0 && i%4 == 3 {
+				// contended delete with follow-ups: one node (of full height) is inserted first, then every process deletes it
+				// (by node or by key) and at once looks the key up / re-inserts it -- a loser that is told "false" while the winner
+				// is still between two levels must not find the key afterwards
+				sc.Procs = map[string][][]interface{}{}
+				k := 1 + rnd.Intn(nk)
+				for p := 1; p <= np; p++ {
+					var ops [][]interface{}
+					if p == 1 {
+						ops = append(ops, []interface{}{"ins", k, sc.Top})
+					}
+					if rnd.Intn(2) == 0 {
+						ops = append(ops, []interface{}{"deln", 1})
+					} else {
+						ops = append(ops, []interface{}{"del", k})
+					}
+					ops = append(ops, []interface{}{"look", k})
+					if rnd.Intn(2) == 0 {
+						ops = append(ops, []interface{}{"ins", k, rnd.Intn(sc.Top + 1)})
+					}
+					sc.Procs[fmt.Sprintf("p%d", p)] = ops
+				}
+			}
 			for q := 1; q <= *iters; q++ {
 				var ops [][]interface{}
 				for j := 0; j < 2+rnd.Intn(2*nk+2); j++ {
